@@ -261,6 +261,13 @@ func (eval Evaluator) BootstrapMany(cts []rlwe.Ciphertext) ([]rlwe.Ciphertext, e
 
 	var err error
 
+	// The circuit works in place: it is given copies, the inputs are left as they are.
+	in := cts
+	cts = make([]rlwe.Ciphertext, len(in))
+	for i := range in {
+		cts[i] = *in[i].CopyNew()
+	}
+
 	switch eval.ResidualParameters.RingType() {
 	case ring.ConjugateInvariant:
 
